@@ -174,6 +174,22 @@ impl JwtCredentialValidatorUtils {
     }
   }
 
+  /// The status check of a build without the `revocation-bitmap` feature, in which no `credentialStatus` type is
+  /// supported: [`StatusCheck::Strict`](crate::validator::StatusCheck::Strict) rejects every `credentialStatus`, the
+  /// other modes skip it.
+  #[cfg(not(feature = "revocation-bitmap"))]
+  pub(crate) fn check_unsupported_status<T>(
+    credential: &Credential<T>,
+    status_check: crate::validator::StatusCheck,
+  ) -> ValidationUnitResult {
+    match &credential.credential_status {
+      Some(status) if status_check == crate::validator::StatusCheck::Strict => Err(
+        JwtValidationError::InvalidStatus(crate::Error::InvalidStatus(format!("unsupported type '{}'", status.type_))),
+      ),
+      _ => Ok(()),
+    }
+  }
+
   /// Check the given `status` against the matching [`RevocationBitmap`] service in the
   /// issuer's DID Document.
   #[cfg(feature = "revocation-bitmap")]
